@@ -228,11 +228,17 @@ impl TcpNameserver {
     }
 
     async fn send_tcp_query(&mut self, msg: TcpNameserverMessage) -> Result<(), Error> {
-        assert!(
-            self.qid2reply
-                .insert(msg.out_query.qid, msg.out_reply)
-                .is_none()
-        ); // TODO: Collisions!
+        if self.qid2reply.contains_key(&msg.out_query.qid) {
+            /* The id is already in flight on this connection.  Fail this query rather than
+             * confuse the two replies; the client will retry with a fresh id.
+             */
+            let _ = msg.out_reply.send(Err(Error::Internal(format!(
+                "Query id {:#x} already in flight to {}",
+                msg.out_query.qid, self.addr
+            ))));
+            return Ok(());
+        }
+        self.qid2reply.insert(msg.out_query.qid, msg.out_reply);
         if let Some(ref mut tcp_sock) = self.tcp {
             use tokio::io::AsyncWriteExt as _;
             let bytes = msg.out_query.serialise();
